@@ -3,6 +3,7 @@
 package world
 
 import (
+	"crypto/sha1"
 	"crypto"
 	"crypto/ecdsa"
 	"crypto/elliptic"
@@ -109,6 +110,11 @@ type CertOpts struct {
 	// TSA: make extended key usage critical (required by the timestamping profile)
 	CriticalEKU bool
 	Subject     *pkix.Name
+	// DNSNames go into the subject alternative name (the only identity of a certificate with an empty subject)
+	DNSNames []string
+	// Lookalike (parent nil only): the certificate reads as self-signed - issuer name equal to the subject name,
+	// authority key identifier equal to the subject key identifier - but is signed with another key
+	Lookalike bool
 }
 
 // NewCert issues a certificate; parent nil = self-signed.
@@ -137,6 +143,7 @@ func NewCert(parent *Cert, o CertOpts) *Cert {
 		CRLDistributionPoints: o.CRLURLs,
 		OCSPServer:            o.OCSPURLs,
 		ExtKeyUsage:           o.EKU,
+		DNSNames:              o.DNSNames,
 	}
 	if o.IsCA {
 		tpl.KeyUsage = x509.KeyUsageCertSign | x509.KeyUsageCRLSign
@@ -160,6 +167,12 @@ func NewCert(parent *Cert, o CertOpts) *Cert {
 	signerCert, signerKey := tpl, key
 	if parent != nil {
 		signerCert, signerKey = parent.Cert, parent.Key
+	} else if o.Lookalike {
+		ski := sha1.Sum([]byte("lookalike " + subj.String()))
+		tpl.SubjectKeyId = ski[:]
+		tpl.AuthorityKeyId = ski[:] // not copied from the issuer when the names are equal
+		signerCert = &x509.Certificate{Subject: subj, SubjectKeyId: ski[:]}
+		signerKey = NewKey(o.Kind)
 	}
 	der, err := x509.CreateCertificate(rand.Reader, tpl, signerCert, key.Public(), signerKey)
 	must(err)
